@@ -524,6 +524,16 @@ class Plan:
                 c["pow2"] = True
                 cases.append(c)
             self.add_group("C09", cases, "config_matrix")
+            # the stand-alone code paths in hostile scopes (C16): a scope slip may sit in a branch that only a solo
+            # configuration of a particular shape takes
+            if (r, len(reals)) in (("u8", 4), ("i16", 10), ("i8", 140)):
+                for k, (lab, cfg) in enumerate(cfgs[1:]):
+                    twins = []
+                    for ctx in ("plain", "all_traits" if k % 2 else "all_types"):
+                        c = self.new_case(r, vs, cfg, script, f"soloctx:{lab}:{ctx}", ctx=ctx)
+                        c["pow2"] = True
+                        twins.append(c)
+                    self.add_group("C16", twins, "contexts")
 
     # -- B2: sorted(name) / sorted(value) must not change behaviour either (C09)
     def sorted_cfgs(self, n_decls):
